@@ -8,7 +8,96 @@ def knobs(rnd):
     return gen.Knobs(cut=False, ctrl=False, eq=True, recursive=0.35, nonground_facts=0.25, n_rules=(1, 4))
 
 
+def _plain(t):
+    """how a ground term reads when written without spaces (what `str()` of the compiler's AST gives)"""
+    k = t[0]
+    if k == 'A':
+        return str(t[1])
+    if k == 'N':
+        return t[1]
+    if k == 'F':
+        return '%s(%s)' % (t[1], ','.join(_plain(a) for a in t[2]))
+    if k == 'L':
+        return '[%s]' % ','.join(_plain(a) for a in t[1])
+    raise ValueError(t)
+
+
+def _ground(t):
+    k = t[0]
+    if k in ('A', 'N'):
+        return True
+    if k == 'F':
+        return all(_ground(a) for a in t[2])
+    if k == 'L':
+        return all(_ground(a) for a in t[1])
+    return False
+
+
+def lookalike_case(rep, drv, rnd, i):
+    """quoted atoms whose text reads like another term of the same program ('f(a)' next to f(a), 'a,b'
+    inside g(..) next to g(a,b), '[a]' next to [a]): different terms, whatever the compiler does to
+    recognise equal constants"""
+    from .. import scen
+    g = gen.ProgGen(rnd, knobs(rnd))
+    prog = g.program()
+    qs = g.queries(3)
+    cands = []
+
+    def collect(t):
+        if t[0] in ('F', 'L') and _ground(t) and (t[0] == 'F' or t[1]):
+            cands.append(t)
+        if t[0] == 'F':
+            for a in t[2]:
+                collect(a)
+        elif t[0] in ('L', 'P'):
+            for a in t[1]:
+                collect(a)
+
+    def terms_of_body(b, f):
+        if isinstance(b, str):
+            return b
+        if b[0] == 'call':
+            return ('call', b[1], [f(a) for a in b[2]]) + tuple(b[3:])
+        if b[0] == 'neg':
+            return ('neg', terms_of_body(b[1], f))
+        return (b[0], terms_of_body(b[1], f), terms_of_body(b[2], f))
+    for c in prog:
+        for a in c[1]:
+            collect(a)
+        terms_of_body(c[2], lambda t: (collect(t), t)[1])
+    if not cands:
+        cands = [('F', 'f', [('A', 'a')]), ('L', [('A', 'a'), ('A', 'b')])]
+    # every candidate also occurs as a fact argument, next to its look-alike atom
+    extra = []
+    for t in rnd.sample(cands, min(len(cands), 3)):
+        extra.append(('lk', [t, ('A', 'compound')], 'tru'))
+        extra.append(('lk', [('A', _plain(t)), ('A', 'atom')], 'tru'))
+        if t[0] == 'F' and len(t[2]) >= 2:
+            extra.append(('lk', [('F', t[1], [('A', ','.join(_plain(a) for a in t[2]))]), ('A', 'one-argument')], 'tru'))
+
+    def swap(t):
+        if t[0] == 'A' and rnd.random() < 0.25:
+            return ('A', _plain(rnd.choice(cands)))
+        if t[0] == 'F':
+            return ('F', t[1], [swap(a) for a in t[2]])
+        if t[0] == 'L':
+            return ('L', [swap(a) for a in t[1]])
+        if t[0] == 'P':
+            return ('P', [swap(a) for a in t[1]], t[2])
+        return t
+    prog2 = [((c[0], [swap(a) for a in c[1]], terms_of_body(c[2], swap)) + tuple(c[3:])) for c in prog] + extra
+    from ..common import Sym
+    ops = [('load', 'overwrite', prog2)]
+    ops += [('query', n_, ('all',), a) for n_, a in qs]
+    ops.append(('query', 'lk', ('all',), [[Sym('v'), 0], [Sym('v'), 1]]))
+    rep.count('look-alike-atoms')
+    if scen.three_way(rep, drv, ops, 'case %d look-alike atoms' % i) == 'ok':
+        rep.nontriv(scen.norm(scen.ops_json(ops[:1])))
+
+
 def case(rep, drv, rnd, i, tier):
+    if i % 16 == 3:
+        return lookalike_case(rep, drv, rnd, i)
     if i % 8 == 7:
         # tie T2q: the model of Python that gives the printed text its meaning, against CPython
         return pyraw.case(rep, drv, rnd, i)
@@ -25,7 +114,8 @@ def run(tier):
                        'repeated/nested head variables, lists, list pairs, variable-variable aliasing, optional append/member/len) '
                        'x 3-4 queries with unbound, shared, partial and ground arguments; three-way: real engine = model of the '
                        'compiled code = reference semantics; a case is non-trivial when the reference yields >= 1 answer; '
-                       'distinct = distinct (program, query); one case in eight is a generated script of the emitted Python subset (not '
+                       'distinct = distinct (program, query); one case in sixteen adds quoted atoms whose text reads like another term of '
+                       'the program; one case in eight is a generated script of the emitted Python subset (not '
                        'compiler output) run by CPython and by the model of Python (tie T2q)')
 
 
